@@ -48,7 +48,7 @@ type caseT struct {
 	Obs    []string `json:"observations"`
 }
 
-func one(c *vlib.Ctx, w int, bounds []float64, obs []float64) {
+func one(c *vlib.Ctx, w int, bounds []float64, obs []float64, irregular bool) {
 	var bl []string
 	for _, b := range bounds {
 		bl = append(bl, lit(b))
@@ -62,6 +62,22 @@ func one(c *vlib.Ctx, w int, bounds []float64, obs []float64) {
 	name := fmt.Sprintf("w%d.mtail", w)
 	p, err := mt.Load(name, src, mt.Opts{})
 	bk := fmt.Sprintf("bounds=%v", bl)
+	if err != nil && irregular {
+		return // a declaration with repeated or unsorted bounds may be refused
+	}
+	if irregular {
+		// accepted: it must then behave as the histogram over the distinct bounds in increasing order
+		set := map[float64]bool{}
+		var u []float64
+		for _, b := range bounds {
+			if !set[b] {
+				set[b] = true
+				u = append(u, b)
+			}
+		}
+		sort.Float64s(u)
+		bounds = u
+	}
 	if err != nil {
 		c.Report("compile "+bk, fmt.Sprintf("declaration with sorted bounds rejected: %v\n%s", err, src), rep)
 		return
@@ -209,8 +225,9 @@ func main() {
 		}
 	}
 	type job struct {
-		b []float64
-		o []float64
+		b   []float64
+		o   []float64
+		irr bool
 	}
 	var jobs []job
 	for _, b := range lists {
@@ -220,7 +237,7 @@ func main() {
 		}
 		var gen func(cur []float64)
 		gen = func(cur []float64) {
-			jobs = append(jobs, job{b, append([]float64{}, cur...)})
+			jobs = append(jobs, job{b, append([]float64{}, cur...), false})
 			if len(cur) == maxObs {
 				return
 			}
@@ -230,9 +247,36 @@ func main() {
 		}
 		gen(nil)
 	}
+	// irregular declarations: one bound repeated, or the first two swapped
+	nIrr := 0
+	for _, b := range lists {
+		var vars [][]float64
+		for i := range b {
+			v := append(append(append([]float64{}, b[:i+1]...), b[i]), b[i+1:]...)
+			vars = append(vars, v)
+		}
+		sw := append([]float64{}, b...)
+		sw[0], sw[1] = sw[1], sw[0]
+		vars = append(vars, sw)
+		vals := []float64{-5, math.Inf(1), math.NaN()}
+		for _, x := range b {
+			vals = append(vals, x, math.Nextafter(x, math.Inf(1)))
+		}
+		for _, v := range vars {
+			nIrr++
+			jobs = append(jobs, job{v, nil, true})
+			for _, o1 := range vals {
+				jobs = append(jobs, job{v, []float64{o1}, true})
+				for _, o2 := range vals {
+					jobs = append(jobs, job{v, []float64{o1, o2}, true})
+				}
+			}
+		}
+	}
+	c.Set("irregular_boundary_lists", nIrr)
 	vlib.ParallelW(len(jobs), runtime.NumCPU(), func(w, i int) {
 		j := jobs[i]
-		one(c, w, j.b, j.o)
+		one(c, w, j.b, j.o, j.irr)
 		k := ""
 		if len(j.o) > 0 {
 			k = fmt.Sprint(j.b, fmt.Sprint(j.o))
@@ -247,5 +291,5 @@ func main() {
 		}
 	})
 	c.Set("boundary_lists", len(lists))
-	c.Finish("all strictly increasing boundary lists of length 2-3 over {-1,0,0.5,1,2} × all observation sequences up to the bound over {each boundary, its float neighbours, -5, 1e300, ±Inf, NaN}, through a compiled `histogram h buckets …` program and the Prometheus exposition; distinct_nontrivial = distinct (bounds, non-empty observation sequence)")
+	c.Finish("all strictly increasing boundary lists of length 2-3 over {-1,0,0.5,1,2} × all observation sequences up to the bound over {each boundary, its float neighbours, -5, 1e300, ±Inf, NaN}, through a compiled `histogram h buckets …` program and the Prometheus exposition; plus every such list with one bound repeated or the first two swapped (either refused by the compiler or behaving as the histogram over the distinct sorted bounds); distinct_nontrivial = distinct (bounds, non-empty observation sequence)")
 }
